@@ -16,7 +16,7 @@
    Output: accept, or the set of places where the compiler reports an error
    (pipeline id, call id / "return" / "in", bound parameter id), or
    "unsupported" for programs outside the modelled fragment (declaration-level
-   errors, calls that are not already in dependency order, preflight, retain,
+   errors, cyclic call references, preflight, retain,
    a map call that adds a known length to a length-unknown mapping inherited
    from another call: the implementation shares one MapCallSet object between
    such calls).
@@ -814,7 +814,53 @@ Definition typecheck_g (sm : bool) (a : ast) : result :=
          (result_of (phase_args sm a (pipelines_of a))
             (result_of (phase_call sm a) RAccept)).
 
-Definition typecheck : ast -> result := typecheck_g true.
+(* MRO does not require the calls of a pipeline to be written in dependency
+   order: Pipeline.topoSort puts every call after the calls it references,
+   keeping the source order otherwise, before anything is type-checked (the
+   dimension a map call adds to its outputs is only known once that call has
+   been checked).  The judgement above is for calls in dependency order; this
+   is the sort: repeatedly take the first remaining call all of whose call
+   references (to calls of this pipeline) have been taken.  A cycle leaves the
+   list unsorted, which calls_ordered then reports as unsupported. *)
+Definition call_ready (ids done : list bytes) (c : call_stm) : bool :=
+  forallb (fun kr : ref_kind * bytes =>
+             match fst kr with
+             | RefCall => negb (mem (snd kr) ids) || mem (snd kr) done
+             | RefSelf => true
+             end) (flat_map refs_of (call_exps c)).
+
+Fixpoint take_ready (ids done : list bytes) (cs : list call_stm) : option (call_stm * list call_stm) :=
+  match cs with
+  | [] => None
+  | c :: r =>
+      if call_ready ids done c then Some (c, r)
+      else match take_ready ids done r with
+           | Some (x, r') => Some (x, c :: r')
+           | None => None
+           end
+  end.
+
+Fixpoint topo_calls (fuel : nat) (ids done : list bytes) (cs : list call_stm) : list call_stm :=
+  match fuel, cs with
+  | S f, _ :: _ =>
+      match take_ready ids done cs with
+      | Some (x, r) => x :: topo_calls f ids (c_id x :: done) r
+      | None => cs
+      end
+  | _, _ => cs
+  end.
+
+Definition sort_pipeline (p : pipeline) : pipeline :=
+  mk_pipeline (pl_id p) (pl_ins p) (pl_outs p)
+              (topo_calls (List.length (pl_calls p)) (map c_id (pl_calls p)) [] (pl_calls p))
+              (pl_ret p) (pl_retain p).
+
+Definition sort_ast (a : ast) : ast :=
+  mk_ast (a_user_types a) (a_struct_types a)
+         (map (fun c => match c with CPipeline p => CPipeline (sort_pipeline p) | _ => c end) (a_callables a))
+         (a_compiled a) (a_call a).
+
+Definition typecheck (a : ast) : result := typecheck_g true (sort_ast a).
 
 (* ------------------------------------------------ evaluation of literals *)
 
